@@ -19,6 +19,7 @@ Streams (each: real code in-process  vs  exact brute-force oracle  vs  Lean mode
 """
 from __future__ import annotations
 
+import itertools
 import math
 import random
 from concurrent.futures import ThreadPoolExecutor
@@ -256,6 +257,10 @@ def as_int(v, case):
     return np.int64(v) if case.get("np_scalars") and isinstance(v, int) and not isinstance(v, bool) else v
 
 
+def _d(t_):
+    return torch.view_as_real(t_).double() if t_.is_complex() else t_.double()
+
+
 def owns_memory(ctx, case, label, outs, inputs, recall):
     """OUTPUTS OWN THEIR MEMORY: write distinct values into every element of every result in place — each must read back
     (no internal overlap), no argument and no other result may change, and a later identical call must still return
@@ -277,11 +282,11 @@ def owns_memory(ctx, case, label, outs, inputs, recall):
             ctx.fail(case, f"{label}-output-memory: result #{i_} overlaps itself (expanded / stride-0 memory returned)")
             return False
         for j_, q_ in enumerate(outs):
-            if j_ > i_ and not torch.equal(torch.nan_to_num(q_.double(), nan=1.5), torch.nan_to_num(originals[j_].double(), nan=1.5)):
+            if j_ > i_ and not torch.equal(torch.nan_to_num(_d(q_), nan=1.5), torch.nan_to_num(_d(originals[j_]), nan=1.5)):
                 ctx.fail(case, f"{label}-output-memory: writing into result #{i_} changed result #{j_}")
                 return False
     for t_, sn in snaps_in:
-        if not torch.equal(torch.nan_to_num(t_.detach().double(), nan=1.5), torch.nan_to_num(sn.double(), nan=1.5)):
+        if not torch.equal(torch.nan_to_num(_d(t_.detach()), nan=1.5), torch.nan_to_num(_d(sn), nan=1.5)):
             ctx.fail(case, f"{label}-output-memory: writing into the result changed an argument (the result aliases its input)")
             return False
     try:
@@ -296,7 +301,7 @@ def owns_memory(ctx, case, label, outs, inputs, recall):
             ctx.fail(case, f"{label}-output-memory: a later call overwrote result #{i_} of the earlier call (results live in a shared buffer)")
             return False
     for a_, b_ in zip(again, originals):
-        if a_.shape != b_.shape or not torch.equal(torch.nan_to_num(a_.double(), nan=1.5), torch.nan_to_num(b_.double(), nan=1.5)):
+        if a_.shape != b_.shape or not torch.equal(torch.nan_to_num(_d(a_), nan=1.5), torch.nan_to_num(_d(b_), nan=1.5)):
             ctx.fail(case, f"{label}-output-memory: a later identical call returns another result after an earlier result "
                            f"was modified in place (results share memory with internal state)")
             return False
@@ -320,18 +325,30 @@ def build_cloud(case, item=0, which="pts"):
     N = case["N"] if which == "pts" else case["N2"]
     x = U.gen_cloud(r, N, case["pdim"], case.get("extra", 0), kind, case["dtype"])
     m = mags[item % len(mags)] if mags else case.get("mag_exp", 0)
+    if case["dtype"] in ("float16", "bfloat16"):
+        x = x.clamp(-2000.0, 2000.0).to(U.DT[case["dtype"]]).double()
     sh = case.get("shift")
     if sh in ("neg", "max0") and x.numel():
         pdc = case["pdim"]
         top = x[:, :pdc].amax(0, keepdim=True)
         x = x.clone()
         x[:, :pdc] = x[:, :pdc] - top - (top.abs() + 1 if sh == "neg" else 0)    # exact on fixed-point clouds
-        if case["dtype"] == "float32":
-            x = x.to(torch.float32).double()
+        if case["dtype"] in ("float32", "float16", "bfloat16"):
+            x = x.to(U.DT[case["dtype"]]).double()
     elif sh == "zero":
         x = torch.zeros_like(x)
-    if case["dtype"].startswith("int"):
-        return torch.round(x * 64).clamp(-2.0 ** 20, 2.0 ** 20)      # integer-dtype cloud
+    if U.is_int_like(case["dtype"]):
+        dn = case["dtype"]
+        xi = torch.round(x * 64)
+        if dn == "int8":
+            xi = torch.round(x).clamp(-60, 60)            # differences stay inside int8
+        elif dn == "uint8":
+            xi = (torch.round(x) - torch.round(x).amin(0, keepdim=True)).clamp(0, 250)
+        elif dn == "int16":
+            xi = torch.round(x * 4).clamp(-8000, 8000)
+        elif dn == "bool":
+            xi = (x > x.median()).double()
+        return xi.clamp(-2.0 ** 20, 2.0 ** 20)      # integer-valued cloud (also the real part of a complex one)
     if m:
         x = x * 2.0 ** m          # exact: the whole cloud moved to a tiny / huge magnitude
     return x
@@ -343,11 +360,11 @@ def lay(x: torch.Tensor, layout):
         return x
     N, D = x.shape[-2], x.shape[-1]
     if layout == "cols":      # columns 1..D of a wider buffer
-        base = torch.full(x.shape[:-1] + (D + 3,), 7.5, dtype=x.dtype)
+        base = torch.full(x.shape[:-1] + (D + 3,), 7.5 if x.is_floating_point() else 1, dtype=x.dtype)
         base[..., 1:1 + D] = x
         v = base[..., 1:1 + D]
     elif layout == "rows":    # every second row of a longer buffer
-        base = torch.full(x.shape[:-2] + (2 * N + 1, D), -3.25, dtype=x.dtype)
+        base = torch.full(x.shape[:-2] + (2 * N + 1, D), -3.25 if x.is_floating_point() else 1, dtype=x.dtype)
         base[..., 1:2 * N:2, :] = x
         v = base[..., 1:2 * N:2, :]
     elif layout == "T":       # transposed storage
@@ -524,6 +541,22 @@ def topk_verdict(drow, Krow, sel, k, largest, is_sorted, tol, exact):
         elif sfar(a, b, 4 * tol * max(a, b)):
             return False, f"rank {t}: index {sel_eff[t]} at distance {a!r}, but the rank-{t} distance is {b!r}"
     return True, ""
+
+
+def cut_structure(Krow, drow, m, tol, exact):
+    """top-m selection on one row: (must, ties, need) — the indices strictly closer than the m-th smallest distance, the
+    indices (numerically) AT it, and how many of those a top-m selection takes; `need == len(ties)` means no tie across the cut"""
+    order = Krow.order(False)
+    c_i = order[m - 1]
+    if exact:
+        must = [j for j in order if Krow[j] < Krow[c_i]]
+        ties = [j for j in order if Krow[j] == Krow[c_i]]
+    else:
+        c = drow[c_i]
+        band = 8 * tol * c
+        must = [j for j in order if drow[j] < c - band]
+        ties = [j for j in order if abs(drow[j] - c) <= band]
+    return must, ties, m - len(must)
 
 
 def row_unambiguous(Krow, drow, k, largest, tol, exact):
@@ -868,7 +901,8 @@ def voxel_oracle(case, X64, vox):
                 # exact multiple: decided exactly iff the subtraction is exact in the dtype
                 f = float(num)
                 if case["dtype"] != "float64":
-                    f = float(torch.tensor(f, dtype=torch.float32))
+                    cast = U.DT[case["dtype"]] if case["dtype"] in ("float16", "bfloat16") else torch.float32
+                    f = float(torch.tensor(f, dtype=cast).double())
                 if Fraction(f) != num:
                     amb = True
             elif frac <= 16 * eps * max(1, abs(qx)):
@@ -1136,18 +1170,46 @@ def check_knnf(ctx: Ctx, case, jobs: Jobs | None = None) -> bool:
         scale_all = X64.abs().amax(0)
         for r_, i in enumerate(keep):
             Krow = rows[i]
-            if not row_unambiguous(Krow, d[i], k + 1, False, tol, exact):
-                ctx.count("knnf.tie-rows-skipped")
+            must, ties, need = cut_structure(Krow, d[i], k + 1, tol, exact)
+            tolm = (64 + 2 * (k + 1)) * eps * X64[must + ties].abs().amax(0)
+            if need == len(ties):
+                # no tie ACROSS the cut (ties inside the neighbourhood do not matter): one admissible set
+                nb = must + ties
+                ctx.count("knnf.rows-checked")
+                want = X64[nb].mean(0)
+                if bool(far(got[r_], want, tolm).any()):
+                    ctx.fail(case, f"knnf-mean: output row {r_} (input point {i}) is {got[r_].tolist()} but the mean of the point and "
+                                   f"its {k} nearest neighbours {[j for j in nb if j != i]} is {want.tolist()} "
+                                   f"(radius={radius!r}, ord={o}, pdim={pd})")
+                    return False
                 continue
-            nb = Krow.order(False)[: k + 1]
-            ctx.count("knnf.rows-checked")
-            want = X64[nb].mean(0)
-            tolm = (64 + 2 * (k + 1)) * eps * X64[nb].abs().amax(0)
-            if bool(far(got[r_], want, tolm).any()):
-                ctx.fail(case, f"knnf-mean: output row {r_} (input point {i}) is {got[r_].tolist()} but the mean of the point and "
-                               f"its {k} nearest neighbours {nb[1:] if nb[0] == i else nb} is {want.tolist()} "
-                               f"(radius={radius!r}, ord={o}, pdim={pd})")
-                return False
+            # ties at the selection boundary: the row must be the mean over SOME admissible choice —
+            # all points closer than the cut distance plus any `need` of the points exactly at it
+            ncomb = math.comb(len(ties), need)
+            base = X64[must].sum(0) if must else torch.zeros(D, dtype=torch.float64)
+            if ncomb <= 1500:
+                ctx.count("knnf.tie-rows-enumerated")
+                hit = False
+                for comb in itertools.combinations(ties, need):
+                    want = (base + X64[list(comb)].sum(0)) / (k + 1)
+                    if not bool(far(got[r_], want, tolm).any()):
+                        hit = True
+                        break
+                if not hit:
+                    ctx.fail(case, f"knnf-mean-ties: output row {r_} (input point {i}) is {got[r_].tolist()}: it is not the mean of the "
+                                   f"{len(must)} points closer than the cut distance {d[i][ties[0]]!r} plus ANY {need} of the {len(ties)} points "
+                                   f"{ties} exactly at it ({ncomb} admissible choices; k={k}, radius={radius!r}, ord={o}, pdim={pd})")
+                    return False
+            else:
+                # too many choices to enumerate: necessary condition per channel (sum of the `need` smallest / largest tied values)
+                ctx.count("knnf.tie-rows-bounded")
+                tv = X64[ties].sort(0).values
+                lo_ = (base + tv[:need].sum(0)) / (k + 1)
+                hi_ = (base + tv[-need:].sum(0)) / (k + 1)
+                if bool(((got[r_] < lo_ - tolm) | (got[r_] > hi_ + tolm) | ~torch.isfinite(got[r_])).any()):
+                    ctx.fail(case, f"knnf-mean-ties: output row {r_} (input point {i}) is {got[r_].tolist()}, outside the range "
+                                   f"[{lo_.tolist()}, {hi_.tolist()}] of the means over admissible choices (k={k}, ord={o})")
+                    return False
         if jobs is not None and b < case.get("model_items", 1):
             line = f"c18.api.knnf {U.ord_tok(o)} {'none' if pdim is None else pdim} {D} {N} {k} {0 if radius is None else 1} {wire_radius(radius or 0.0)} " \
                    + cloud_tokens(X64)
@@ -1287,6 +1349,8 @@ def check_randf(ctx: Ctx, case, jobs: Jobs | None = None) -> bool:
                 ctx.fail(case, f"randf-itemwise: batch item {b} alone (same draw) gives other rows than inside the batch")
                 return False
     perms = [vs for (nm, a, vs) in log if nm == "randperm"]
+    if case["dtype"] in ("complex64",):
+        return True
     if jobs is not None and len(perms) == 1 and sorted(perms[0]) == list(range(N)):
         nb_model = nB if nB * N * D <= 4000 else 1          # the whole batch goes to the model: ONE draw for every item
         line = f"c18.api.randf {D} {N} {num} {nb_model} " + " ".join(map(str, perms[0])) + " " \
@@ -1677,10 +1741,20 @@ def check_homo(ctx: Ctx, case, jobs: Jobs | None = None) -> bool:
     P = pp()
     d = case["dtype"]
     T = U.DT[d]
-    eps, tiny = U.EPS[d], U.TINY[d]
+    eps, tiny = U.EPS[d], U.TINY.get(d, 2.0 ** -126)
     r = random.Random(case["data_seed"])
     shape = tuple(case["shape"])
     m = int(math.prod(shape))
+    if U.is_int_like(d):
+        # cart2homo is documented for any coordinates: integer / bool / complex inputs keep their dtype
+        vals_ = [r.randrange(0, 2) if d == "bool" else r.randrange(0, 60) for _ in range(m)]
+        p = torch.tensor(vals_).reshape(shape).to(T)
+        h = P.cart2homo(p)
+        if h.dtype != T or tuple(h.shape) != shape[:-1] + (shape[-1] + 1,) or not torch.equal(h[..., :-1], p) or \
+                not bool((h[..., -1] == torch.ones((), dtype=T)).all()):
+            ctx.fail(case, f"homo-cart2homo: cart2homo of a {T} tensor returns {h.dtype} {tuple(h.shape)} / is not p with a one appended")
+            return False
+        return True
     big = case.get("mag", 1.0)
     p = torch.tensor([lad(r, -3, 3) * big if r.random() < 0.9 else 0.0 for _ in range(m)], dtype=torch.float64).reshape(shape).to(T)
     p_plain = p
@@ -1914,6 +1988,108 @@ def edge_cases():
     return out
 
 
+# ============================================================================ sandwich (class 32)
+
+def _battery(P, seed):
+    """every public operation of the module, forward and backward, single-item and batched, each dtype, degenerate shapes
+    (one point, one column, one voxel, batch of one) — run BETWEEN two identical calls of the operation under test"""
+    g = torch.Generator().manual_seed(seed)
+    for T in (torch.float32, torch.float64):
+        for shape in [(1, 1), (1, 3), (5, 3), (1, 1, 3), (2, 4, 3)]:
+            x = torch.randn(shape, generator=g, dtype=torch.float64).to(T).requires_grad_()
+            if len(shape) == 2:
+                N = shape[0]
+                outs = [P.nbr_filter(x, 0, 1.0), P.knn_filter(x, 0), P.knn_filter(x, min(1, N - 1), radius=10.0),
+                        P.voxel_filter(x, [100.0] * shape[1]), P.voxel_filter(x, [0.5] * shape[1])]
+                with U.observe_rng("lo", None):
+                    outs += [P.voxel_filter(x, [100.0] * shape[1], random=True), P.random_filter(x, N)]
+            else:
+                outs = [P.knn_filter(x, 0)]
+                with U.observe_rng("hi", None):
+                    outs.append(P.random_filter(x, shape[-2]))
+            outs += [P.knn(x, x, k=1).values, P.cart2homo(x), P.homo2cart(P.cart2homo(x))]
+            if shape[-1] == 3:
+                K = torch.tensor([[2.0, 0, 1], [0, 3, 1], [0, 0, 1]], dtype=T)
+                xz = x + torch.tensor([0.0, 0.0, 5.0], dtype=T)
+                uv = P.point2pixel(xz, K)
+                outs += [uv, P.pixel2point(uv, xz[..., 2], K), P.reprojerr(xz, uv.detach(), K, reduction="norm")]
+            tot = sum(o_.sum() for o_ in outs if o_.requires_grad)
+            if isinstance(tot, torch.Tensor) and tot.requires_grad:
+                tot.backward()
+
+
+def check_sandwich(ctx: Ctx, case, jobs: Jobs | None = None) -> bool:
+    """two identical calls with every other public operation of the module in between must agree bit for bit
+    (a module-level constant written in place by another operation on a degenerate shape poisons later calls)"""
+    P = pp()
+    fn, dtp, deg = case["fn"], case["dtype"], case["degenerate"]
+    T = U.DT[dtp]
+    g = torch.Generator().manual_seed(case["data_seed"])
+    N, D = (1, 1) if deg else (7, 3)
+    if fn in ("p2p", "px2pt", "reproj"):
+        D = 3
+    X = (torch.randint(-20, 21, (N, D), generator=g).double() / 4).to(T)
+    K = torch.tensor([[2.0, 0, 1], [0, 3, 1], [0, 0, 1]], dtype=T)
+
+    def call():
+        if fn == "knn":
+            r_ = P.knn(X, X, k=1)
+            return [r_.values, r_.indices]
+        if fn == "knnf":
+            return [P.knn_filter(X, 0 if deg else 2)]
+        if fn == "knnf_r":
+            return [P.knn_filter(X, 0 if deg else 1, radius=100.0)]
+        if fn == "nbr":
+            return list(P.nbr_filter(X, 0, 100.0, return_mask=True))
+        if fn == "voxel":
+            return [P.voxel_filter(X, [1000.0] * D)]           # one voxel
+        if fn == "voxel_r":
+            with U.observe_rng("lo", None):
+                return [P.voxel_filter(X, [1000.0] * D, random=True)]
+        if fn == "randf":
+            with U.observe_rng("lo", None):
+                return [P.random_filter(X, N)]
+        if fn == "c2h":
+            return [P.cart2homo(X)]
+        if fn == "h2c":
+            return [P.homo2cart(torch.cat([X, torch.ones(N, 1, dtype=T)], -1))]
+        Xz = X + torch.tensor([0.0, 0.0, 9.0], dtype=T)
+        if fn == "p2p":
+            return [P.point2pixel(Xz, K)]
+        if fn == "px2pt":
+            return [P.pixel2point(Xz[:, :2], Xz[:, 2], K)]
+        return [P.reprojerr(Xz, Xz[:, :2], K, reduction="sum")]
+    try:
+        first = [t_.clone() for t_ in call()]
+        _battery(P, case["data_seed"] + 1)
+        second = call()
+    except Exception as e:
+        ctx.fail(case, f"sandwich-raises: {fn} / the other operations of the module raise on valid degenerate input: {type(e).__name__}: {str(e)[:120]}")
+        return False
+    for a_, b_ in zip(first, second):
+        if a_.shape != b_.shape or a_.dtype != b_.dtype or not torch.equal(torch.nan_to_num(_d(a_), nan=1.5), torch.nan_to_num(_d(b_), nan=1.5)):
+            ctx.fail(case, f"sandwich-{fn}: the same call ({'one point, one column' if deg else '7 points'}, {dtp}) returns another result after "
+                           f"the other operations of the module ran: {a_.flatten()[:6].tolist()} then {b_.flatten()[:6].tolist()}")
+            return False
+    # the degenerate results themselves: one point / one voxel -> the point itself
+    if deg and fn in ("knnf", "knnf_r", "voxel", "voxel_r", "randf"):
+        if tuple(second[0].shape) != (1, D) or not torch.equal(second[0], X):
+            ctx.fail(case, f"sandwich-{fn}: a cloud of one point must come back as that point, got {second[0].tolist()} for {X.tolist()}")
+            return False
+    return True
+
+
+def sandwich_cases():
+    out = []
+    sd = 0
+    for fn in ["knn", "knnf", "knnf_r", "nbr", "voxel", "voxel_r", "randf", "c2h", "h2c", "p2p", "px2pt", "reproj"]:
+        for dtp in ("float32", "float64"):
+            for deg in (True, False):
+                sd += 1
+                out.append({"stream": "sandwich", "fn": fn, "dtype": dtp, "degenerate": deg, "data_seed": sd, "N": 2})
+    return out
+
+
 # ============================================================================ large sizes (class 19)
 
 def big_ints(seed, M, D, span):
@@ -2052,8 +2228,9 @@ def check_large(ctx: Ctx, case, jobs: Jobs | None = None) -> bool:
     r = random.Random(seed)
     g = torch.Generator().manual_seed(seed)
     shape = {"flat": (M,), "lead1": (1, M), "trail1": (M, 1)}[case["shape"]]
-    cuts = [1, M // 2, M - 1] if M > 2 else [1]
-    items = sorted({0, M - 1, r.randrange(M)})
+    cuts = sorted({1, M // 2, M - 1} | {M - (M % (1 << k_)) for k_ in (6, 10, 14, 17, 18) if 0 < M - (M % (1 << k_)) < M}) if M > 2 else [1]
+    items = sorted({0, M - 1, r.randrange(M)} | {M - (M % (1 << k_)) for k_ in (6, 10, 14, 17, 18) if M - (M % (1 << k_)) < M}
+                   | {max(0, M - (M % (1 << k_)) - 1) for k_ in (10, 17, 18)})      # first / last item of the last partial block
 
     def split_ok(f, args, name, ulps, mag=None):
         """args: tensors whose first batch axis (of length M) is cut; returns False after ctx.fail.
@@ -2138,6 +2315,19 @@ def gen_large_cases(rng, sizes, per_fn=1):
     return out
 
 
+def gen_pointwise_large(rng, sizes):
+    """the point-wise entry points (and random_filter / cart2homo) far beyond the largest block: one call each"""
+    out = []
+    for M in sizes:
+        dtp = rng.choice(["float32", "float64"])
+        base = {"stream": "large", "M": M, "dtype": dtp, "data_seed": rng.randrange(1 << 30), "N": M}
+        for fn in ("p2p", "px2pt", "homo"):
+            out.append({**base, "fn": fn, "shape": rng.choice(["flat", "lead1", "trail1"])})
+        out.append({**base, "fn": "reproj", "shape": "flat", "red": rng.choice(["none", "sum", "norm"])})
+        out.append({**base, "fn": "randf", "num": M, "rng_mode": "real"})
+    return out
+
+
 def gen_large_quadratic(rng, sizes):
     out = []
     for M in sizes:
@@ -2173,7 +2363,7 @@ def gen_common(rng, hiN, **over):
         c["shift"] = None
     if "mag_exp" not in c:
         c["mag_exp"] = rng.choice(MAGS.get(c["dtype"], [0]))
-    if c["dtype"].startswith("int"):
+    if U.is_int_like(c["dtype"]) or c["dtype"] in ("float16", "bfloat16"):
         c["mag_exp"], c["gmode"] = 0, None
     return c
 
@@ -2270,7 +2460,7 @@ def derive_voxel(rng, c, vd, X64=None, mode_over=None):
             # cell size relative to the point spacing: a point sits just inside / just outside / exactly on a cell boundary
             g = rng.choice(gaps) / rng.choice([1, 1, 2, 3])
             sgn = {"gap+": 1, "gap-": -1, "gap": 0}.get(mode_over, rng.choice([1, -1, 0]))
-            v = f32(g * (1 + sgn * 2.0 ** -rng.choice([10, 13, 16])))
+            v = f32(g * (1 + sgn * 2.0 ** -rng.choice([10, 13, 16, 20])))      # float32 sizes: 2^-20 is the finest step
             if v != 0 and math.isfinite(v) and span / abs(v) < 2.0 ** 40:
                 vox.append(v)
                 continue
@@ -2305,9 +2495,9 @@ def gen_voxel_case(rng, hiN, **over):
     c["random"] = over.get("random", rng.random() < 0.4)
     c["rng_mode"] = over.get("rng_mode", rng.choice(["lo", "hi", "hi", "script", "real"])) if c["random"] else None
     c["vox_form"] = over.get("vox_form", rng.choice(["list", "list", "tuple", "np32", "np64"]))
-    if c["random"] and "dtype" not in over and rng.random() < 0.15:
-        c["dtype"], c["mag_exp"], c["gmode"] = rng.choice(["int64", "int32"]), 0, None
-    if c["dtype"].startswith("int") and not c["random"]:
+    if c["random"] and "dtype" not in over and rng.random() < 0.25:
+        c["dtype"], c["mag_exp"], c["gmode"] = rng.choice(["int64", "int32", "int16", "int8", "uint8", "float16", "bfloat16"]), 0, None
+    if U.is_int_like(c["dtype"]) and not c["random"]:
         c["dtype"] = "float64"
     vd = rng.randint(1, c["pdim"]) if (c["extra"] == 0 and rng.random() < 0.5) else c["pdim"]
     derive_voxel(rng, c, vd, mode_over=over.get("vox_mode"))
@@ -2340,10 +2530,11 @@ def gen_randf_case(rng, hiN, **over):
     c["num"] = over["num"](c["N"]) if "num" in over else rng.choice(
         [c["N"], c["N"], max(0, c["N"] - 1), rng.randint(0, c["N"]), 1 if c["N"] else 0, 0])
     c["rng_mode"] = over.get("rng_mode", rng.choice(["real", "real", "hi", "lo", "script", "script"]))
-    if "dtype" not in over and rng.random() < 0.15:
-        c["dtype"], c["mag_exp"], c["gmode"] = rng.choice(["int64", "int32"]), 0, None
+    if "dtype" not in over and rng.random() < 0.25:
+        c["dtype"], c["mag_exp"], c["gmode"] = rng.choice(["int64", "int32", "int16", "int8", "uint8", "bool", "float16", "bfloat16",
+                                                            "complex64"]), 0, None
     mix_items(rng, c)
-    if c["dtype"].startswith("int"):
+    if U.is_int_like(c["dtype"]) or c["dtype"] in ("float16", "bfloat16"):
         c.pop("item_mags", None)
     return c
 
@@ -2615,7 +2806,7 @@ HOMO_MAGS = {"float32": [1.0, 1.0, 1e-3, 1e3, 1e-30, 1e-15, 1e15, 1e30], "float6
 def gen_homo_case(rng, **over):
     dtp = over.get("dtype", rng.choice(["float32", "float64"]))
     c = {"stream": "homo", "shape": rng.choice([[1], [2], [3], [4], [7], [2, 3], [5, 2], [2, 1, 4], [3, 2, 2]]),
-         "dtype": dtp, "mag": rng.choice(HOMO_MAGS[dtp]), "layout": rng.choice([None, None, "cols"]),
+         "dtype": dtp, "mag": rng.choice(HOMO_MAGS.get(dtp, [1.0])), "layout": rng.choice([None, None, "cols"]),
          "gmode": rng.choice(GMODES), "own_check": rng.random() < 0.35, "default64": rng.random() < 0.2,
          "data_seed": rng.randrange(1 << 30)}
     c.update(over)
@@ -2623,13 +2814,15 @@ def gen_homo_case(rng, **over):
 
 
 CHECKS = {"knn": check_knn, "nbr": check_nbr, "voxel": check_voxel, "knnf": check_knnf, "randf": check_randf,
-          "camera": check_camera, "homo": check_homo, "hist": check_hist, "bad": check_bad, "large": check_large, "seq": check_seq, "edge": check_edge}
+          "camera": check_camera, "homo": check_homo, "hist": check_hist, "bad": check_bad, "large": check_large, "seq": check_seq, "edge": check_edge, "sandwich": check_sandwich}
 
 
 def signature(c):
     st = c["stream"]
     if st == "large":
         return ("large", c["fn"], c["M"], c["dtype"], c.get("shape"), c.get("k"), c.get("random"))
+    if st == "sandwich":
+        return ("sandwich", c["fn"], c["dtype"], c["degenerate"])
     if st == "edge":
         return ("edge", c["what"], c["N"], c["D"], str(c["ord"]), c["dtype"], c.get("pdim"))
     if st == "seq":
@@ -2681,7 +2874,7 @@ def run_case(ctx: Ctx, c, jobs):
     ctx.count(f"{st}")
     if st == "large":
         ctx.count(f"large.{c['fn']}")
-    if st not in ("camera", "homo", "hist", "large", "seq", "edge"):
+    if st not in ("camera", "homo", "hist", "large", "seq", "edge", "sandwich"):
         ctx.count(f"{st}.kind.{c['kind']}")
         ctx.count(f"{st}.N.{['1', '2-6', '7-24', '25-70', '71-300'][nbucket(c['N'])]}")
         ctx.count(f"{st}.ord.{c['ord']}")
@@ -2721,6 +2914,8 @@ def run(ctx: Ctx):
         ks = list(range(8, 17))
         sizes = sorted({(1 << k_) + d_ for k_ in ks for d_ in (-1, 0, 1)})
         for c in gen_large_cases(rng, rng.sample(sizes, 10)) + gen_large_quadratic(rng, [s_ for s_ in sizes if s_ <= 2049][-9:]):
+            run_case(ctx, c, jobs)
+        for c in gen_pointwise_large(rng, [(1 << 18) + 1, (1 << 18) + 37, (1 << 20) + 1]):
             run_case(ctx, c, jobs)
     for name, gen, n in plan:
         nbig = 0
@@ -2981,6 +3176,52 @@ def corpus_cases():
                 cv = gen_voxel_case(r, 30, random=not bool(it % 2), rng_mode="lo", vox_mode=0.2, **{**q, "shift": None})
                 cv["voxel"] = [-abs(v_) for v_ in cv["voxel"]]          # every size negative
                 out.append(cv)
+    # ---- pass 5 -------------------------------------------------------------------------------------------------
+    # (35) organised clouds: every tie there is — 2-D grid with a feature channel, 3-D lattice, outliers anywhere,
+    #      ord 1 / 2 / inf, radius given / omitted, both dtypes, k = 1..4: the row must be the mean over SOME admissible choice
+    for dtp in dts:
+        for o in ORDS:
+            for (pd_, ex_, N_) in [(2, 1, 16), (3, 0, 27), (2, 0, 25), (1, 2, 9)]:
+                for kk_ in (1, 2, 3, 4):
+                    it += 1
+                    q = dict(kind="grid", pdim=pd_, extra=ex_, N=N_, dtype=dtp, ord=o, mag_exp=0, shift=None, layout=None, gmode=None)
+                    out.append(gen_knnf_case(r, 30, with_radius=bool(it % 2), radius_mode=["hit", "mid", "above"][it % 3], batch=[],
+                                             k=(lambda n, kk_=kk_: kk_), **q))
+                    if kk_ <= 2:
+                        out.append(gen_knn_case(r, 30, N2=N_, alias=bool(it % 2), defaults=False, batch=[], flags=(bool(it % 3 == 0), True),
+                                                k=(lambda n, kk_=kk_: kk_ + 1), **q))
+                        out.append(gen_nbr_case(r, 30, radius_mode="hit", **q))
+                        out.append(gen_voxel_case(r, 30, random=bool(it % 2), rng_mode="hi", vox_mode=[0.2, "gap"][it % 2], **q))
+    # (36) near-coincident pairs: distances differing by 2^-12 .. 2^-36 relative — outside round-off, inside any loose tolerance
+    for dtp in dts:
+        for o in ORDS:
+            for kk_ in (1, 2, 3):
+                it += 1
+                q = dict(kind="neartie", N=[8, 12, 20][it % 3], pdim=[1, 2, 3][it % 3], extra=0, dtype=dtp, ord=o, mag_exp=0, shift=None,
+                         layout=None, gmode=None)
+                out.append(gen_knn_case(r, 30, N2=q["N"], alias=True, defaults=False, batch=[], flags=(False, True),
+                                        k=(lambda n, kk_=kk_: 2 * kk_), **q))
+                out.append(gen_knnf_case(r, 30, with_radius=bool(it % 2), batch=[], k=(lambda n, kk_=kk_: 2 * kk_ - 1), **q))
+                out.append(gen_nbr_case(r, 30, radius_mode=["hit+", "hit-", "mid"][it % 3], **q))
+    # (30) every dtype the entry points accept: value AND dtype of the result
+    for dtp in ["int16", "int8", "uint8", "bool", "float16", "bfloat16", "complex64", "int32", "int64"]:
+        for i_ in range(4):
+            it += 1
+            out.append(gen_randf_case(r, 30, dtype=dtp, N=[3, 8, 16, 5][i_], batch=[[], [2], [3], []][i_], kind=kinds[it % 6],
+                                      rng_mode=["hi", "script", "real", "lo"][i_], layout=[None, "rows", "T", "cols"][i_]))
+            out.append(gen_homo_case(r, dtype=dtp, gmode=None, layout=None, mag=1.0, shape=[[3], [2, 3], [5, 2], [2, 1, 4]][i_]))
+            if dtp not in ("bool", "complex64"):
+                out.append(gen_voxel_case(r, 30, dtype=dtp, N=[4, 9, 17, 6][i_], random=True, rng_mode=["hi", "lo", "script", "hi"][i_],
+                                          kind="lattice", vox_mode=0.2, mag_exp=0, shift=None))
+            if dtp in ("float16", "bfloat16"):
+                q = dict(dtype=dtp, kind=["lattice", "grid"][i_ % 2], mag_exp=0, shift=None, layout=None, gmode=None, pdim=[2, 3][i_ % 2], extra=0)
+                out += [gen_nbr_case(r, 30, N=9, radius_mode="hit", **q), gen_knnf_case(r, 30, N=9, with_radius=bool(i_ % 2), batch=[], **q),
+                        gen_knn_case(r, 30, N=5, N2=9, alias=False, defaults=False, batch=[], **q),
+                        gen_voxel_case(r, 30, N=9, random=False, vox_mode=0.2, **q)]
+    # (32) two identical calls around every other operation of the module (degenerate shapes)
+    out += sandwich_cases()
+    # (34) beyond the largest block: one size > 2^17 for the point-wise entry points
+    out += [c_ for c_ in gen_pointwise_large(r, [(1 << 17) + 37])]
     for c_ in out:
         c_["own_check"] = True      # (15) every corpus case also checks that results own their memory
         for st_ in c_.get("steps", []):
